@@ -985,6 +985,24 @@ func (bd *Bounds) ProveDiffAtMost(at ssa.Instruction, a, b ssa.Value, k int64) b
 	return pr.prove(ta, tb, k)
 }
 
+// ProveLenLE: len(x) <= v at instruction at.
+func (bd *Bounds) ProveLenLE(at ssa.Instruction, x ssa.Value, v ssa.Value) bool {
+	pr := bd.newProver(at)
+	tx, tv := pr.lenTerm(x), pr.termOf(v)
+	pr.pathFacts()
+	pr.refresh()
+	return pr.prove(tx, tv, 0)
+}
+
+// ProveLenLenLE: len(a) <= len(b) at instruction at.
+func (bd *Bounds) ProveLenLenLE(at ssa.Instruction, a, b ssa.Value) bool {
+	pr := bd.newProver(at)
+	ta, tb := pr.lenTerm(a), pr.lenTerm(b)
+	pr.pathFacts()
+	pr.refresh()
+	return pr.prove(ta, tb, 0)
+}
+
 // ---- interprocedural facts ----
 
 type paramKey struct {
